@@ -51,7 +51,8 @@ func TestVerif_WriteBack(t *testing.T) {
 	r := vkit.Start(t, "C15", "write-back", "exploration", rule)
 	r.Assume("bounded liveness in virtual time: 2 x RetryBackoffMax + (objects+5) x (limiter interval + 35 ms) + 1 s after failures and changes stop", "the reconciler is driven through hive's job group inside a synctest bubble; real-timer behaviour is out of scope")
 	r.Require("operation_attempts", "failed_attempts", "user_writes", "prune_calls")
-	run(t, r, vkit.N(6000, 120000), map[string]bool{"status": true}, false)
+	// ("the new version is reconciled again": a version that is never attempted shows as not Done / wrong last operation at the end)
+	run(t, r, vkit.N(6000, 120000), map[string]bool{"status": true, "conv/not-done": true, "conv/last-op": true}, false)
 	r.Finish()
 }
 
